@@ -114,7 +114,24 @@ def gen_preserve_tree(rng: random.Random) -> Dict[str, Any]:
                     m = rng.choice(lib["classes"][nm])
                     if form in ("from",):
                         refs.append(f"{nm}.{m}")
-        body = "\n".join(dict.fromkeys(lines)) + "\n\n" + "REFERENCES = [\n" + "".join(f"    {r},\n" for r in dict.fromkeys(refs)) + "]\n"
+        # some from-imports sit in nested positions: inside try/except ImportError, an if block, a function
+        nested: List[str] = []
+        flat: List[str] = []
+        for l in dict.fromkeys(lines):
+            if l.startswith("from ") and rng.random() < 0.3:
+                where = rng.choice(["try", "if", "func"])
+                if where == "try":
+                    nested.append(f"try:\n    {l}\nexcept ImportError:\n    raise\n")
+                elif where == "if":
+                    nested.append(f"if REFERENCES is not None:\n    {l}\n")
+                else:
+                    bound = l.split(" import ")[1].split("#")[0].strip().split(" as ")[-1]
+                    nested.append(f"def loader_{c}_{len(nested)}():\n    {l}\n    return {bound}\n")
+                    refs[:] = [r for r in refs if r.split(".")[0] != bound]
+            else:
+                flat.append(l)
+        needs_flag = any(n.startswith("if REFERENCES") for n in nested)
+        body = "\n".join(flat) + "\n\n" + ("REFERENCES = []\n" if needs_flag else "") + "\n".join(nested) + "\n" + "REFERENCES = [\n" + "".join(f"    {r},\n" for r in dict.fromkeys(refs)) + "]\n"
         rel = f"vsc{c}_client.py"
         files[rel] = body
         clients.append(rel)
@@ -273,7 +290,7 @@ def _ref_form(case: Dict[str, Any], lib: Dict[str, Any], name: str) -> str:
     short = name.split(".")[-1]
     for rel in case["tree_meta"]["preserved_files"]:
         for line in case["files"].get(rel, "").splitlines():
-            if line.startswith("from ") and f"import {short}" in line:
+            if line.strip().startswith("from ") and f"import {short}" in line:
                 forms.add("from-import-as" if " as " in line else ("from-import-unused" if "re-exported" in line else "from-import"))
             elif f".{short}" in line:
                 forms.add("attribute")
